@@ -2407,41 +2407,19 @@ bool olc_db<Key, Value>::iterator::try_seek(art_key_type search_key,
         // Note: [node] has not been pushed onto the stack yet!
         auto nxt = inode->gte_key_byte(node_type, remaining_key[0]);
         if (!nxt) {
-          // Pop entries off the stack until we find one with a
-          // right-sibling of the path we took to this node and then
-          // do a left-most descent under that right-sibling. If there
-          // is no such parent, we will wind up with an empty stack
-          // (aka the end() iterator) and return that state.
+          // Every child of this node is less than the search key byte, so
+          // the whole subtree is. The stack holds the path we took to this
+          // node: step to the successor of that path, i.e. do a left-most
+          // descent under the nearest right-sibling. If there is no such
+          // sibling, we will wind up with an empty stack (aka the end()
+          // iterator) and return that state.
           if (UNODB_DETAIL_UNLIKELY(
                   !parent_critical_section.try_read_unlock()))  // unlock parent
             return false;  // LCOV_EXCL_LINE
           if (UNODB_DETAIL_UNLIKELY(
                   !node_critical_section.try_read_unlock()))  // unlock node
             return false;                                     // LCOV_EXCL_LINE
-          if (!empty()) pop();
-          while (!empty()) {
-            const auto& centry = top();
-            const auto cnode{centry.node};  // a possible parent from the stack.
-            auto c_critical_section(
-                node_ptr_lock(cnode).rehydrate_read_lock(centry.version));
-            if (UNODB_DETAIL_UNLIKELY(!c_critical_section.check()))
-              return false;  // LCOV_EXCL_LINE
-            auto* const icnode{cnode.template ptr<inode_type*>()};
-            const auto cnxt = icnode->next(
-                cnode.type(), centry.child_index);  // right-sibling.
-            if (cnxt) {
-              auto nchild = icnode->get_child(
-                  cnode.type(), centry.child_index);  // get the child
-              if (UNODB_DETAIL_UNLIKELY(
-                      !c_critical_section.check()))  // before using [nchild]
-                return false;                        // LCOV_EXCL_LINE
-              return try_left_most_traversal(nchild, c_critical_section);
-            }
-            pop();
-            if (UNODB_DETAIL_UNLIKELY(!c_critical_section.try_read_unlock()))
-              return false;  // LCOV_EXCL_LINE
-          }
-          return true;  // stack is empty (aka end()).
+          return try_next();
         }
         const auto& tmp = nxt.value();  // unwrap.
         const auto child_index = tmp.child_index;
@@ -2464,40 +2442,18 @@ bool olc_db<Key, Value>::iterator::try_seek(art_key_type search_key,
       // immediate precessor of the desired key in the data.
       auto nxt = inode->lte_key_byte(node_type, remaining_key[0]);
       if (!nxt) {
-        // Pop off the current entry until we find one with a
-        // left-sibling and then do a right-most descent under that
-        // left-sibling.  In the extreme case there is no such
-        // previous entry and we will wind up with an empty stack.
+        // Every child of this node is greater than the search key byte.
+        // Step to the predecessor of the path we took to this node, i.e. do
+        // a right-most descent under the nearest left-sibling. In the
+        // extreme case there is no such sibling and we will wind up with
+        // an empty stack.
         if (UNODB_DETAIL_UNLIKELY(
                 !parent_critical_section.try_read_unlock()))  // unlock parent
           return false;                                       // LCOV_EXCL_LINE
         if (UNODB_DETAIL_UNLIKELY(
                 !node_critical_section.try_read_unlock()))  // unlock node
           return false;                                     // LCOV_EXCL_LINE
-        if (!empty()) pop();
-        while (!empty()) {
-          const auto& centry = top();
-          const auto cnode{centry.node};  // a possible parent from stack
-          auto c_critical_section(
-              node_ptr_lock(cnode).rehydrate_read_lock(centry.version));
-          if (UNODB_DETAIL_UNLIKELY(!c_critical_section.check()))
-            return false;  // LCOV_EXCL_LINE
-          auto* const icnode{cnode.template ptr<inode_type*>()};
-          const auto cnxt =
-              icnode->prior(cnode.type(), centry.child_index);  // left-sibling.
-          if (cnxt) {
-            auto nchild = icnode->get_child(
-                cnode.type(), centry.child_index);  // get the child
-            if (UNODB_DETAIL_UNLIKELY(
-                    !c_critical_section.check()))  // before using [nchild]
-              return false;                        // LCOV_EXCL_LINE
-            return try_right_most_traversal(nchild, c_critical_section);
-          }
-          pop();
-          if (UNODB_DETAIL_UNLIKELY(!c_critical_section.try_read_unlock()))
-            return false;  // LCOV_EXCL_LINE
-        }
-        return true;  // stack is empty (aka end()).
+        return try_prior();
       }
       const auto& tmp = nxt.value();  // unwrap.
       const auto child_index = tmp.child_index;
